@@ -96,6 +96,15 @@ class _AnyDateTime(type):
 
 class SimDateTime(_real_dt.datetime, metaclass=_AnyDateTime):
     @classmethod
+    def __get_pydantic_core_schema__(cls, source, handler):
+        # a model the library defines after the seams are attached (inside a
+        # function, with create_model or TypeAdapter) annotates a field with
+        # this class: it is a datetime field
+        from pydantic_core import core_schema  # noqa: PLC0415
+
+        return core_schema.datetime_schema()
+
+    @classmethod
     def now(cls, tz=None):  # noqa: D102
         return _now(tz)
 
@@ -174,6 +183,38 @@ REAL_REPLACE = os.replace
 REAL_RENAME = os.rename
 
 
+class _Flags:
+    """"This fault has fired", visible to the node and to any process the
+    library forks from it (a decoder or writer in a child process): a small
+    shared mapping, one slot per fault family, holding the generation number
+    of the fault that fired."""
+
+    def __init__(self):
+        import mmap  # noqa: PLC0415
+
+        self.mm = mmap.mmap(-1, 16)
+        self.gen = 0
+
+    def next(self) -> int:
+        self.gen = (self.gen % 0x7FFFFFF0) + 1
+        return self.gen
+
+    def get(self, slot: int) -> int:
+        return int.from_bytes(self.mm[slot * 4: slot * 4 + 4], "little")
+
+    def set(self, slot: int, value: int) -> None:
+        self.mm[slot * 4: slot * 4 + 4] = int(value).to_bytes(4, "little")
+
+
+FLAGS = _Flags()
+
+
+def new_flags() -> None:
+    """Called in every node right after it is forked from the template."""
+    global FLAGS
+    FLAGS = _Flags()
+
+
 class Fault:
     """One armed fault for the current request (at most one fires)."""
 
@@ -181,7 +222,15 @@ class Fault:
         self.kind = spec["kind"]
         self.permille = int(spec.get("permille", 500))
         self.root = root
-        self.fired = False
+        self.gen = FLAGS.next()
+
+    @property
+    def fired(self) -> bool:
+        return FLAGS.get(0) == self.gen
+
+    @fired.setter
+    def fired(self, value: bool) -> None:
+        FLAGS.set(0, self.gen if value else 0)
 
     def covers(self, path) -> bool:
         try:
@@ -420,8 +469,16 @@ sim_rename = _sim_move(REAL_RENAME)
 
 
 class _AudioFault:
-    kind = None  # "sf_open_error" | "sf_read_error"
-    fired = False
+    kind = None  # "sf_open_error" | "sf_read_error" | "sf_*_crash"
+    gen = 0
+
+    @property
+    def fired(self) -> bool:
+        return self.gen != 0 and FLAGS.get(1) == self.gen
+
+    @fired.setter
+    def fired(self, value: bool) -> None:
+        FLAGS.set(1, self.gen if value else 0)
 
 
 AUDIO = _AudioFault()
@@ -429,7 +486,8 @@ AUDIO = _AudioFault()
 
 def arm_audio(kind):
     AUDIO.kind = kind
-    AUDIO.fired = False
+    AUDIO.gen = FLAGS.next()
+    FLAGS.set(1, 0)
 
 
 def _audio_point(real, stage):
